@@ -176,6 +176,14 @@ def run(ctx):
         "p/both.proto": 'syntax = "proto3";\npackage p;\nimport "p/v1/a.proto";\nimport "p/v2/a.proto";\n'
                         "message Both { p.v1.Order o1 = 1; p.v2.Order o2 = 2; map<string, p.v1.Item> m1 = 3; map<string, p.v2.Item> m2 = 4; "
                         "oneof g { p.v1.Item i1 = 5; p.v2.Item i2 = 6; } }\n"}, ()))
+    # one module referring to two packages with the same last name at different depths (a root-level cousin and a sibling)
+    cases.append((ctx.work, "sameleaf", {
+        "p/p.proto": 'syntax = "proto3";\npackage p;\nmessage Item { int32 n = 1; message Inner { int32 k = 1; } }\nenum Kind { KIND_ZERO = 0; KIND_FAR = 1; }\n',
+        "a/p/p.proto": 'syntax = "proto3";\npackage a.p;\nmessage Item { string s = 1; message Inner { string t = 1; } }\nenum Kind { KIND_ZERO = 0; KIND_NEAR = 2; }\n',
+        "a/x/x.proto": 'syntax = "proto3";\npackage a.x;\nimport "p/p.proto";\nimport "a/p/p.proto";\n'
+                       "message Box { .p.Item far = 1; .a.p.Item near = 2; repeated .p.Item far_list = 3; repeated .a.p.Item near_list = 4; map<string, .p.Item> far_map = 5; "
+                       "map<string, .a.p.Item> near_map = 6; oneof pick { .p.Item.Inner far_inner = 7; .a.p.Item.Inner near_inner = 8; } .p.Kind far_kind = 9; .a.p.Kind near_kind = 10; }\n",
+        "a/x/y/y.proto": 'syntax = "proto3";\npackage a.x.y;\nimport "p/p.proto";\nimport "a/p/p.proto";\nmessage Deep { .p.Item far = 1; .a.p.Item near = 2; map<int32, .a.p.Kind> kinds = 3; repeated .p.Kind far_kinds = 4; }\n'}, ()))
     # nested types whose names are lower-case or runs of capitals (the flattened class name and the reference must agree)
     cases.append((ctx.work, "nestednames", {
         "n/shapes.proto": 'syntax = "proto3";\npackage n;\nmessage Shape { message point { int32 x = 1; } enum kind { kind_zero = 0; kind_one = 1; } point p = 1; kind k = 2; }\n'
